@@ -294,4 +294,16 @@ def sentOf : List FeedOp → List Head
   | .send h :: t => h :: sentOf t
   | .recv :: t => sentOf t
 
+/-- `catchUpL1HeadUpdates` when the database fails inside its final `setL1Head`: the error is
+returned to `Run`, which only logs it and goes on to the live subscription (`CatchUpL1Head` returns
+it). State and feed value as in `setL1HeadFault`. -/
+def catchUpFault (g : Bool) (s : State) (hist : List SU) (latest fin₁ chunk : Nat)
+    (failAt : Option Nat) (fin₂ : Nat) (f : DbFault) : State × CatchUpOut × Option Head :=
+  let o := catchUpLoop hist fin₁ chunk failAt latest 0 s.buf [] []
+  match o.result with
+  | .complete =>
+    let r := setL1HeadFault g ⟨o.buf, s.head⟩ fin₂ f
+    (r.1, o, r.2.1)
+  | _ => (⟨o.buf, s.head⟩, o, none)
+
 end Juno.C17
